@@ -133,8 +133,14 @@ def pav(y):
 def layer_fit(its, o):
     if o["minPos"] is None or o["maxPos"] is None:
         return True
-    need = sum(Fr(n.width) for n in its) + sum(
-        Fr(LINE_SPACING if (is_stub(its[k]) and is_stub(its[k + 1])) else o["nodeSpacing"]) for k in range(len(its) - 1))
+    ts = [target(n) for n in its]
+    if len(set(ts)) < len(ts) and sum(1 for n in its if is_stub(n)) >= 2:
+        # items tied on target may be chained in either order, which changes how many stub/stub neighbours (line
+        # spacing) there are: "fits" is only asserted when it fits under every such order (upper bound)
+        need = sum(Fr(n.width) for n in its) + (len(its) - 1) * Fr(max(LINE_SPACING, o["nodeSpacing"]))
+    else:
+        need = sum(Fr(n.width) for n in its) + sum(
+            Fr(LINE_SPACING if (is_stub(its[k]) and is_stub(its[k + 1])) else o["nodeSpacing"]) for k in range(len(its) - 1))
     return need <= Fr(o["maxPos"]) - Fr(o["minPos"])
 
 
